@@ -33,6 +33,8 @@ def main():
 
     cell = lseq.LazySeq(producer)
     target = cell if variant != "map" else map_(lambda x: x + 1, cell)
+    wrappers = [lseq.LazySeq(lambda: cell) for _ in range(nthreads)]     # variant "wrap": one per thread
+    widx = []
     out = []
 
     def consumer():
@@ -48,6 +50,12 @@ def main():
             out.append(first(target) - 1)
         elif variant == "count":
             out.append(count(target) - 1)
+        elif variant == "wrap":
+            # every thread but the first reaches the shared cell through its own (lazy-seq cell):
+            # the cell is then realized by the wrapper's walk over nested lazy seqs
+            i = len(widx)
+            widx.append(i)
+            out.append(first(cell) if i == 0 else first(wrappers[i]))
     ths = [threading.Thread(target=consumer) for _ in range(nthreads)]
     for t in ths:
         t.start()
